@@ -139,6 +139,10 @@ class DULServiceProvider(Thread):
 
         evt.trigger(self.assoc, evt.EVT_PDU_RECV, {"pdu": pdu})
 
+        # A PDU whose parameter values can't be converted to a primitive is invalid,
+        #   check that here rather than letting the state machine's actions raise
+        pdu.to_primitive()
+
         return pdu, event
 
     def idle_timer_expired(self) -> bool:
